@@ -236,6 +236,9 @@ def gen_text_mutants(repo):
         ("conditions.py", "return cls(call_funcs.in_range, lower=lower, upper=upper)", "return cls(call_funcs.in_range, lower, upper)", {"C11", "C09"}, "constructor-stores-positionally", None),
         ("conditions.py", "return cls(call_funcs.keys_contain_all_of, *keys)", "return cls(call_funcs.keys_contain_any_of, *keys)", {"C01", "C09"}, "constructor-binds-sibling-callable", None),
         ("conditions.py", "return {self.FLATTEN_SYMBOL: [i.to_json_like() for i in self.children]}", "return {self.FLATTEN_SYMBOL: [i.to_json_like() for i in self.children[:1]]}", {"C11"}, "combination-serialises-first-child-only", None),
+        ("conditions.py", "return {self.FLATTEN_SYMBOL: [i.to_json_like() for i in self.children]}", "ops = []\n        for i in self.children:\n            if type(i) is type(self):\n                ops.extend(i.to_json_like()[self.FLATTEN_SYMBOL])\n            else:\n                ops.append(i.to_json_like())\n        return {self.FLATTEN_SYMBOL: ops}", {"C11"}, "combination-writer-flattens-same-operator-children", None),
+        ("conditions.py", "return {self.FLATTEN_SYMBOL: [i.to_json_like() for i in self.children]}", "ops = []\n        for i in self.children:\n            ops.append(i.to_json_like())\n        return {self.FLATTEN_SYMBOL: ops}", {"C11"}, "combination-writer-as-loop-neutral", "neutral"),
+        ("conditions.py", "name.lower(): name\n", "name: name\n", {"C09", "C11"}, "callable-name-table-keys-not-lower-cased", None),
         ("conditions.py", "spec_val = copy.deepcopy(list(self.callable.args))", "spec_val = copy.deepcopy(self.callable.kwargs)", {"C11"}, "writer-varargs-branch-emits-kwargs", None),
         ("datapath.py", "if part.label is not None:", "if False:", {"C12"}, "labels-silently-dropped", None),
         ("datapath.py", "and part.condition == cnds.NullCondition()\n            ):\n                if part.CONTAINER_TYPE is Container.MAP:", "):\n                if part.CONTAINER_TYPE is Container.MAP:", {"C12"}, "bare-type-for-any-condition", None),
